@@ -295,6 +295,21 @@ def _lift_conds(t):
     return t
 
 
+def _is_defaultdict(I, ref) -> bool:
+    o = I.obj(ref)
+    return getattr(o, "default_factory", None) is not None or getattr(o, "is_defaultdict", False)
+
+
+def _key_ranges_over(I, base, key) -> bool:
+    """``key`` is an element of an iteration over ``base`` itself (its keys / items)."""
+    for x in nf.subterms(key):
+        if x[0] == "elem":
+            it = I.loops.get(x[1], {}).get("iter")
+            if it == base or (isinstance(it, tuple) and it and it[0] == "call" and it[1] in (".keys", ".items", "sorted", "list", "enumerate") and it[2] and it[2][0] == base):
+                return True
+    return False
+
+
 RE_FUNCS = {"re.sub", "re.search", "re.match", "re.split", "re.finditer", "re.findall", "re.fullmatch", "re.compile", "re.subn"}
 
 
@@ -489,6 +504,7 @@ def rule_partial(rep: Report, rid="C01.partial") -> None:
         ("rows0", "DataTable"): lambda: g.children("DataTable").get("TableRow") == "+",
     }
     nidx = 0
+    nkey = [0]
     for label, I, tree, fi in nfs:
         def walk(t, guards, line, I=I, tree=tree, fi=fi, label=label):
             nonlocal nidx
@@ -563,52 +579,90 @@ def rule_partial(rep: Report, rid="C01.partial") -> None:
                     print("IDX", fmt(t, I), "\n   guards:", [(fmt(g_, I), p_) for g_, p_ in guards])
                 rep.ob(rid + ".index", f"{label}: constant index {t[2][1]} is applied to a sequence that cannot be empty there", ok, file=fi.file, line=line,
                        function=fi.qualname, expected="dominating truthiness/length test or grammar-justified", found=(why or "unguarded") + ": " + fmt(t, I)[:120])
+            if t[0] == "item" and not is_const(t[2]) and isinstance(t[2], tuple) and t[1][0] == "ref" and isinstance(I.obj(t[1]), HDict) \
+                    and not _is_defaultdict(I, t[1]):
+                # a dictionary the code builds itself, read with a computed key: the key has to be known to be there
+                base, key = t[1], t[2]
+                nkey[0] += 1
+                ok = any(pol and gcond[0] == "cmp" and gcond[1] == "In" and gcond[2] == key and gcond[3] == base for gcond, pol in guards)
+                if not ok:
+                    ok = _key_ranges_over(I, base, key)
+                rep.ob(rid + ".key", f"{label}: a dictionary built by the code is read with a computed key only when the key is known to be in it", ok, file=fi.file,
+                       line=line, function=fi.qualname, expected="dominating 'key in dict' test, or a key taken from the dictionary itself",
+                       found=("guarded: " if ok else "KeyError possible: ") + fmt(t, I)[:140])
             if t[0] == "ref":
                 return
             for x in t:
                 if isinstance(x, tuple):
                     walk(x, guards, line)
 
-        for n, ctx in nf.iter_nodes(tree):
-            guards = expand_guards(nf.guards_in_ctx(ctx))
-            # while-loop tests guard their bodies
-            for cx in ctx:
-                if cx[0] == "loop":
-                    tst = I.loops.get(cx[1], {}).get("test")
-                    if tst is not None:
-                        if tst[0] == "bool" and tst[1] == "and":
-                            for x in tst[2]:
-                                guards.add(nf.norm_guard(x, True))
-                        else:
-                            guards.add(nf.norm_guard(tst, True))
-            line = None
-            for x in reversed(n):
-                if isinstance(x, int):
-                    line = x
-                    break
-            terms = []
-            k = n[0]
-            if k == "if":
-                terms = [n[1]]
-            elif k == "loop":
-                info = I.loops.get(n[1], {})
-                terms = [x for x in (info.get("iter"), info.get("test")) if x is not None]
-                line = info.get("line")
-            elif k in ("return", "raise", "yield"):
-                terms = [n[1]]
-            elif k == "mutate":
-                terms = list(n[3])
-            elif k == "sink":
-                terms = [v for v in n[1].values() if isinstance(v, tuple)]
-            elif k == "setattr":
-                terms = [n[3]]
-            elif k == "alloc":
-                o = I.obj(n[1])
-                if isinstance(o, HDict):
-                    terms = [nf.strip_dropnone(e[1]) for e in o.entries]
-            for t in terms:
-                walk(t, guards, line)
+        def callbacks(n, guards, line, depth=0):
+            """bodies of the functions handed to a library call (a ``re.sub`` replacement, a ``sorted`` key): run on arguments
+            nothing is known about, their partial operations count like the caller's own"""
+            if depth > 2:
+                return
+            for a in (n[2] if n[0] == "extcall" else n[3] if n[0] == "mcall" else ()):
+                if isinstance(a, tuple) and a and a[0] == "lambda" and len(a) >= 4:
+                    fi_c, _env = I.closures[a[3]]
+                    nargs = len(fi_c.node.args.args)
+                    sub: list = []
+                    try:
+                        from ..absint import State as _State
+                        I.apply(_State(), a, [("cbarg", a[3], i) for i in range(nargs)], {}, None, sub)
+                    except AnalysisError:
+                        raise
+                    except Exception:
+                        continue
+                    scan(sub, guards, depth + 1, line)
+
+        def scan(tree_, outer=(), depth=0, line0=None):
+            for n, ctx in nf.iter_nodes(tree_):
+                guards = expand_guards(set(nf.guards_in_ctx(ctx)) | set(outer))
+                # while-loop tests guard their bodies
+                for cx in ctx:
+                    if cx[0] == "loop":
+                        tst = I.loops.get(cx[1], {}).get("test")
+                        if tst is not None:
+                            if tst[0] == "bool" and tst[1] == "and":
+                                for x in tst[2]:
+                                    guards.add(nf.norm_guard(x, True))
+                            else:
+                                guards.add(nf.norm_guard(tst, True))
+                line = None
+                for x in reversed(n):
+                    if isinstance(x, int):
+                        line = x
+                        break
+                terms = []
+                k = n[0]
+                if k == "if":
+                    terms = [n[1]]
+                elif k == "loop":
+                    info = I.loops.get(n[1], {})
+                    terms = [x for x in (info.get("iter"), info.get("test")) if x is not None]
+                    line = info.get("line")
+                elif k in ("return", "raise", "yield"):
+                    terms = [n[1]]
+                elif k == "mutate":
+                    terms = list(n[3])
+                elif k == "sink":
+                    terms = [v for v in n[1].values() if isinstance(v, tuple)]
+                elif k == "setattr":
+                    terms = [n[3]]
+                elif k == "alloc":
+                    o = I.obj(n[1])
+                    if isinstance(o, HDict):
+                        terms = [nf.strip_dropnone(e[1]) for e in o.entries]
+                if line is None:
+                    line = line0
+                for t in terms:
+                    walk(t, guards, line)
+                if k in ("extcall", "mcall"):
+                    callbacks(n, guards, line, depth)
+
+        scan(tree)
     rep.floor("constant-index reads", nidx, 3)
+    rep.counts["computed-key dictionary reads"] = nkey[0]
     # (iv) bare next()
     nn = 0
     for fi in f.all_functions():
